@@ -227,12 +227,13 @@ def run_solve(sess, op, step, out, stats, log):
     targ = make_times_arg(op)
     origin = True
     try:
+        fo = bool(op.get("full_output"))
         if entry == "integrate":
-            sol = ode.integrate(targ)
+            sol = ode.integrate(targ, full_output=True)[0] if fo else ode.integrate(targ)
         elif entry == "solve_determ":
             sol = ode.solve_determ(targ)
         elif entry == "integrate2":
-            sol = ode.integrate2(targ, method=method)
+            sol = ode.integrate2(targ, full_output=True, method=method)[0] if fo else ode.integrate2(targ, method=method)
         elif entry == "funcjac":
             origin = bool(op.get("include_origin"))
             args = dict(includeOrigin=origin, full_output=bool(op.get("full_output")), method=method)
@@ -288,6 +289,45 @@ def run_solve(sess, op, step, out, stats, log):
             k = int(np.argmax(np.abs(tot - ref_tot)))
             F(fail("C10.det.sum", step, "%s: total population %r at row %d, initial total %r" % (label, float(tot[k]), k, ref_tot)))
         stats["conservation_checked"] = stats.get("conservation_checked", 0) + 1
+
+
+def rebind(sess, op, step, out, stats, log):
+    """The owner re-assigns parameters and / or initial values of the model that is being solved (a history on
+    one object: the next solve must be the solution for the NEW values, nothing may be cached from before)."""
+    ode, ref = sess.ode, sess.ref
+    try:
+        if "theta" in op and ref.p:
+            th = [float(v) for v in op["theta"]]
+            how = op.get("how", "list")
+            names = ref.param_names
+            if how == "dict":
+                ode.parameters = {nm: v for nm, v in zip(names, th)}
+            elif how == "pairs":
+                idx = op.get("perm") or list(range(len(names)))
+                ode.parameters = [(names[i], th[i]) for i in idx]
+            elif how == "partial":
+                keep = op.get("names") or names[:1]
+                ode.parameters = {nm: th[names.index(nm)] for nm in keep}
+                th = [th[i] if names[i] in keep else sess.theta[i] for i in range(len(names))]
+            elif how == "array":
+                ode.parameters = np.array(th, float)
+            else:
+                ode.parameters = list(th)
+            sess.theta = th
+            sess.model_theta = list(th)
+        if "x0" in op:
+            sess.x0 = np.array(op["x0"], float)
+            sess.t0 = float(op.get("t0", sess.t0))
+            t0arg = np_time(sess.t0) if op.get("t0_as", "numpy") == "numpy" else float(sess.t0)
+            ode.initial_values = (sess.x0.copy(), t0arg)
+    except core.HarnessError:
+        raise
+    except Exception as e:
+        out.append(core.crash_failure("C02", e, step, "re-assigning parameters / initial values between solves"))
+        return
+    stats["rebinds"] = stats.get("rebinds", 0) + 1
+    sess.interleaves += 1
+    log.append(["rebind", step, sorted(k for k in op if k != "op")])
 
 
 # ---------------------------------------------------------------------------------------------------
@@ -866,7 +906,7 @@ def sens_int(sess, op, step, out, stats, log):
             out.append(fail("C13.int.fd", step, "dx/dtheta_%d does not match finite differences of solutions" % k))
 
 
-_OPS = {"solve": run_solve, "loss_new": loss_new, "cost": loss_call, "grad": grad_call, "fit": fit_call,
+_OPS = {"solve": run_solve, "rebind": rebind, "loss_new": loss_new, "cost": loss_call, "grad": grad_call, "fit": fit_call,
         "curv": curv_call, "sens_int": sens_int}
 
 
@@ -990,6 +1030,8 @@ def gen_solve_ops(rng, t0, tmax, count):
             op["gtype"] = "scalar"
         if entry in ("integrate2", "funcjac"):
             op["method"] = rng.choice(METHODS)
+        if entry in ("integrate", "integrate2"):
+            op["full_output"] = rng.random() < 0.25
         if entry == "funcjac":
             op["full_output"] = rng.random() < 0.4
             op["include_origin"] = rng.random() < 0.5
